@@ -110,8 +110,8 @@ package main
 //@     invariant wf: forall k int :: 0 <= k && k < len(ranges) ==> ranges[k].Low >= 0 && (ranges[k].Hi == 0 || ranges[k].Hi > ranges[k].Low)
 // each requested entry [low, hi) becomes a range with the same lower end and the same ids up to the last message: it
 // is clipped at lastID+1 only if it reaches beyond the last message, never widened
-//@     iterates [C04] same_low: len(ranges) == prev(len(ranges)) + 1 ==> ranges[len(ranges)-1].Low == dq.LowId && dq.LowId == msg.Del.DelSeq[prev(#idx) - 1].LowId
-//@     iterates [C04] never_widened: len(ranges) == prev(len(ranges)) + 1 ==> upper(ranges[len(ranges)-1]) <= ((msg.Del.DelSeq[prev(#idx) - 1].HiId == 0 || msg.Del.DelSeq[prev(#idx) - 1].HiId == msg.Del.DelSeq[prev(#idx) - 1].LowId) ? msg.Del.DelSeq[prev(#idx) - 1].LowId + 1 : msg.Del.DelSeq[prev(#idx) - 1].HiId)
+//@     iterates [C04] same_low: len(ranges) == prev(len(ranges)) + 1 ==> ranges[len(ranges)-1].Low == dq.LowId && dq.LowId == msg.Del.DelSeq[prev(#idx)].LowId
+//@     iterates [C04] never_widened: len(ranges) == prev(len(ranges)) + 1 ==> upper(ranges[len(ranges)-1]) <= ((msg.Del.DelSeq[prev(#idx)].HiId == 0 || msg.Del.DelSeq[prev(#idx)].HiId == msg.Del.DelSeq[prev(#idx)].LowId) ? msg.Del.DelSeq[prev(#idx)].LowId + 1 : msg.Del.DelSeq[prev(#idx)].HiId)
 //@     iterates [C04] within_history: len(ranges) == prev(len(ranges)) + 1 ==> upper(ranges[len(ranges)-1]) <= t.lastID + 1
 
 // Loaders: numbering resumes from the stored high-water mark, which (recovery invariant of messagesMapper.Save)
@@ -152,6 +152,7 @@ package main
 //@   ensures [assumed] forall u types.Uid :: (u in t.perUser) && !old(u in t.perUser) ==> marksOK(t, u)
 //@   ensures [C15] no_call_ignored: old(t.currentCall == nil) ==> t.currentCall == nil && t.lastID == old(t.lastID) && (forall s int :: outCount[s] == old(outCount[s]))
 //@   ensures [C15] stale_ignored:   old(t.currentCall != nil && t.currentCall.seq != msg.Note.SeqId) ==> t.currentCall == old(t.currentCall) && t.lastID == old(t.lastID) && (forall s int :: outCount[s] == old(outCount[s]))
+//@   assert at call messageHead [C02] only_the_requests_own_headers_are_edited: $1 == nil || (msg.Pub != nil && $1 == msg.Pub.Head)
 //@   assert at call saveAndBroadcastMessage [C15] accept_from_callee: len(t.currentCall.parties) == 1 && originatorUid != asUid && originator.sid != msg.sess.sid && $2 == originatorUid
 //@   assert at call maybeEndCallInProgress [C15] hangup_by_party: len(t.currentCall.parties) == 2 ==> (msg.sess.sid in t.currentCall.parties)
 
@@ -161,6 +162,7 @@ package main
 //@   modifies inferred
 //@   ensures [C15] ended: t.currentCall == nil
 //@   ensures [C15] idle_noop: old(t.currentCall == nil) ==> t.lastID == old(t.lastID) && (forall s int :: outCount[s] == old(outCount[s]))
+//@   assert at call messageHead [C02] only_the_requests_own_headers_are_edited: $1 == nil || (msg.Pub != nil && $1 == msg.Pub.Head)
 //@ func (t *Topic) terminateCallInProgress(callDidTimeout bool)
 //@   requires [C15] t != nil && rowMax[t.name] <= t.lastID
 //@   modifies inferred
@@ -208,6 +210,7 @@ package main
 //@   modifies t.sessions[*], heap("elem<types.Uid>")
 //@   ensures [C03] gone:    sess != nil && sess.multi == nil ==> !((sess in t.sessions) && t.sessions[sess].uid == asUid)
 //@   ensures [C03] no_new:  forall s *Session :: (s in t.sessions) ==> old(s in t.sessions) && t.sessions[s].uid == old(t.sessions[s].uid)
+//@   ensures [C14] untouched_when_not_found: pssd == nil ==> forall s *Session :: (s in t.sessions) == old(s in t.sessions)
 
 //@ func (t *Topic) evictUser(uid types.Uid, unsub bool, skip string)
 //@   requires [C03] t != nil
@@ -216,6 +219,7 @@ package main
 //@   ensures [C06] others_stay: forall u types.Uid :: u != uid ==> (u in t.perUser) == old(u in t.perUser)
 //@   ensures [C10] online_not_raised: forall u types.Uid :: (u in t.perUser) && old(u in t.perUser) ==> t.perUser[u].online == old(t.perUser[u].online) || t.perUser[u].online == 0
 //@   ensures [C06] subscriber_stays: !unsub && old((uid in t.perUser) && !t.perUser[uid].isChan) ==> (uid in t.perUser)
+//@   ensures [C10] evicted_counts_no_sessions: (uid in t.perUser) ==> t.perUser[uid].online == 0
 //@   modifies inferred
 //@   loop 1
 //@     invariant seen_clean: forall s *Session :: #seen[s] && (s in t.sessions) && s != nil && s.multi == nil ==> t.sessions[s].uid != uid
@@ -343,6 +347,7 @@ package main
 //@   assert at call statsSet#2 [C17] majority: voteCount >= expectVotes && 2 * expectVotes > nodeCount + 1 && nodeCount == len(c.nodes)
 //@   loop 2
 //@     invariant votes: voteCount >= 0 && expectVotes == (nodeCount + 1) / 2 + 1 && nodeCount == len(c.nodes)
+//@     iterates [C17] only_granted_votes_count: voteCount > prev(voteCount) ==> voteCount == prev(voteCount) + 1 && taken(done) == prev(taken(done)) + 1 && lastTaken(done) != nil && isnil(lastTaken(done).Error) && dynptr(lastTaken(done).Reply, ClusterVoteResponse) != nil && dynptr(lastTaken(done).Reply, ClusterVoteResponse).Result
 
 // The election loop of one node, for arbitrary received health checks and vote requests (loss, delay, reordering and
 // partition are all "some message is or is not received"). Health checks are sent by other nodes about themselves.
@@ -471,7 +476,9 @@ package main
 
 // Deleting a topic for everybody: only at the owner's request (or the last participant of a p2p topic).
 //@ func (h *Hub) topicUnreg(sess *Session, topic string, msg *ClientComMessage, reason int) (err error)
-//@   requires h != nil && (reason == StopDeleted ==> msg != nil && sess != nil && msg.Del != nil)
+// (a deletion requested by a topic itself - the last participant of a p2p topic is gone - carries no client message
+// and no session)
+//@   requires h != nil && (reason == StopDeleted && msg != nil ==> sess != nil && msg.Del != nil) && (reason == StopDeleted && msg == nil ==> sess == nil)
 //@   requires [C13] env: store.Topics != nil && store.Subs != nil
 //@   modifies inferred
 //@   nopanic
@@ -572,11 +579,20 @@ package main
 //@   trusted
 //@   modifies nothing
 
+// (frames only: what loading a 'me' / 'fnd' topic and registering a topic with the user cache may write is inferred)
+//@ func initTopicMe(t *Topic, sreg *ClientComMessage) (err error)
+//@   modifies inferred
+//@ func initTopicFnd(t *Topic, sreg *ClientComMessage) (err error)
+//@   modifies inferred
+//@ func usersRegisterTopic(t *Topic, add bool)
+//@   modifies inferred
+
 // C13: when a topic fails to load, every queued request is answered to the session that sent it, with its own id.
 //@ func topicInit(t *Topic, join *ClientComMessage, h *Hub)
 //@   requires [C13] t != nil && join != nil && h != nil && join.sess != nil && t.perUser != nil
 //@   requires [C13,assumed] p2p_from_sub: (hasPrefix(t.xoriginal, "usr") || hasPrefix(t.xoriginal, "p2p")) ==> join.Sub != nil
 //@   modifies *
+//@   ensures [C14] join_mark_released_or_handed_over: old(join.Sub != nil && join.sess.inflightReqs != nil) ==> doneCalls > old(doneCalls) || sent(old(t.reg)) > old(sent(t.reg))
 //@   assert at call Session.queueOut#1 [C13] failure_to_requester: $0 == join.sess && $1 != nil && $1.Ctrl != nil && $1.Ctrl.Id == join.Id
 //@   assert at call Session.queueOut#2 [C13] pending_to_sender: $0 == msg.sess && $1 != nil && $1.Ctrl != nil && $1.Ctrl.Id == msg.Id
 //@   assert at call Session.queueOut#3 [C13] unreg_to_sender: $0 == msg.sess && $1 != nil && $1.Ctrl != nil && $1.Ctrl.Id == msg.Id
@@ -597,6 +613,9 @@ package main
 // parseSearchQuery and the reference verifRefParseSearch (zz_verif_spec.go) are executed on every string of length
 // <= 7 over the alphabet {a, b, space, comma, double quote}: 97656 queries.
 //@ bounded [C19] search_query_language: n int in 0..97655 :: verifSearchAgrees(verifNthString(n, "ab ,\""))
+// The same over an alphabet with an upper-case letter and a letter whose lower-case form has a different length in
+// UTF-8 (U+023A, two bytes, becomes U+2C65, three bytes): all strings of up to 6 runes.
+//@ bounded [C19] search_query_unicode: n int in 0..55986 :: verifSearchAgrees(verifNthRunes(n, "aB ,\"Ⱥ"))
 
 // C19: a 'fnd' search reaches the store only after the masked-namespace filter has looked at every required and every
 // optional term and found none that the searcher does not carry, and ordinary users search active records only.
@@ -638,6 +657,8 @@ package main
 //@   ensures [C02] recipients: res != nil ==> forall u types.Uid :: (u in res.To) <==> ((u in t.perUser) && pushEligible(t, u))
 //@   ensures [C02] payload: res != nil ==> res.Payload.SeqId == data.SeqId && res.Payload.From == data.From && res.Payload.Content == data.Content && res.Payload.Topic == t.name
 //@   ensures [C02] channel_address: res != nil && t.isChan ==> res.Channel == types.GrpToChn(t.name)
+//@   ensures [C02] channel_always_addressed: t.isChan && types.GrpToChn(t.name) != "" ==> res != nil
+//@   ensures [C02] nobody_dropped: res == nil ==> forall u types.Uid :: !((u in t.perUser) && pushEligible(t, u))
 //@   loop 1
 //@     invariant [C02] so_far: forall u types.Uid :: (u in receipt.To) <==> (#seen[u] && (u in t.perUser) && pushEligible(t, u))
 
@@ -705,6 +726,10 @@ package main
 //@ func largeFileReceive(wrt http.ResponseWriter, req *http.Request)
 //@   requires [C16] wrt != nil && req != nil && req.URL != nil
 //@   modifies *
+// (the API key and the credentials may sit in form fields: looking for them parses the whole body, so the size limit
+// has to be on the body before the first look)
+//@   assert at call getAPIKey [C16] size_limit_before_body_is_parsed: globals.maxFileUploadSize > 0 ==> bodyLimit[ref(req.Body)] == globals.maxFileUploadSize
+//@   assert at call FormFile [C16] size_limit_on_upload: globals.maxFileUploadSize > 0 ==> bodyLimit[ref(req.Body)] == globals.maxFileUploadSize
 //@   assert at call media.Handler.Upload [C16] api_key_checked: isValid
 //@   assert at call media.Handler.Headers#2 [C16] method_checked: req.Method == "POST" || req.Method == "PUT" || req.Method == "HEAD"
 //@   assert at call media.Handler.Headers#2 [C16] only_after_checks: isValid && challenge == nil
@@ -750,6 +775,15 @@ package main
 //@   requires [C14] s != nil
 //@   modifies inferred
 //@   locksafe
+//@   ensures [C14] unlisted: s.multi == nil ==> !(topic in s.subs)
+//@ func (t *Topic) presSubsOnline(what string, src string, params *presParams, filter *presFilters, skipSid string)
+//@   modifies inferred
+// A plain {leave}: when the topic drops the session from its table, the session drops the topic from its own
+// (whatever the reply is).
+//@ func (t *Topic) handleLeaveRequest(msg *ClientComMessage, sess *Session)
+//@   requires [C14] t != nil && msg != nil && sess != nil && (msg.init ==> msg.Leave != nil)
+//@   modifies *
+//@   ensures [C14] both_sides_agree: old(sess.multi == nil && sess.proto != PROXY && (sess in t.sessions) && !(msg.init && msg.Leave.Unsub)) && !(sess in old(t.sessions)) ==> !(old(t.name) in sess.subs)
 // countSub takes no lock itself: its callers must hold one.
 //@ func (s *Session) countSub() (n int)
 //@   requires [C14] s != nil && (s.multi == nil ==> rheld(s.subsLock)) && (s.multi != nil ==> s.multi.multi == nil && rheld(s.multi.subsLock))
@@ -829,6 +863,8 @@ package main
 // cleared, whatever became of the session's attachment in the meantime; the registration side likewise.
 //@ func (t *Topic) unregisterSession(msg *ClientComMessage)
 //@   requires [C14] t != nil && msg != nil && msg.sess != nil
+// (assumed of the senders: a client's own {leave} - init set - carries its body; Session.leave builds it that way)
+//@   requires [C14,assumed] client_leave_has_body: msg.init ==> msg.Leave != nil
 //@   modifies *
 //@   ensures [C14] leave_mark_cleared: msg.init && msg.sess.inflightReqs != nil ==> doneCalls > old(doneCalls)
 //@ func (t *Topic) registerSession(msg *ClientComMessage)
@@ -860,3 +896,52 @@ package main
 //@   assert at call store.SubsPersistenceInterface.Update [C06] no_ownership_dropped_offline: ("ModeWant" in $3) && !hasPrefix(msg.RcptTo, "p2p") ==> (gotWantHasO ==> hasO(modeWant))
 //@   assert at call store.SubsPersistenceInterface.Update [C07] own_subscription_only: $2 == types.ParseUserId(msg.AsUser) && (msg.Set.Sub == nil || msg.Set.Sub.User == "" || msg.Set.Sub.User == msg.AsUser)
 //@   assert at call store.SubsPersistenceInterface.Update [C07] p2p_modes: ("ModeWant" in $3) && hasPrefix(msg.RcptTo, "p2p") ==> (modeWant & ^types.ModeCP2P) == 0 && (modeWant & types.ModeApprove) != 0
+
+// C10: announcing the user's own status to the contacts: every announcement carries the command as given, and asks the
+// contact to report its own status back exactly when the user is coming online ("on", "on+en", ...).
+//@ func (t *Topic) presUsersOfInterest(what string, ua string)
+//@   requires t != nil
+//@   requires [C10,assumed] hub_running: globals.hub != nil
+//@   modifies inferred
+//@   loop 1
+//@     iterates [C10] reply_requested_when_coming_online: sent(globals.hub.routeSrv) > prev(sent(globals.hub.routeSrv)) ==> last(globals.hub.routeSrv) != nil && last(globals.hub.routeSrv).Pres != nil && last(globals.hub.routeSrv).Pres.What == what && last(globals.hub.routeSrv).Pres.WantReply == (what == "on" || hasPrefix(what, "on+"))
+//@     iterates [C10] one_notice_per_contact: sent(globals.hub.routeSrv) <= prev(sent(globals.hub.routeSrv)) + 1
+
+// C13: credentials of unknown methods are dropped before anybody looks up their validator (the look-up returns nil for
+// an unknown method and the callers do not test it).
+//@ func normalizeCredentials(creds []MsgCredClient, valueRequired bool) (res []MsgCredClient)
+//@   modifies nothing
+// (the index maps a method to a pointer into the request's credential list; the engine does not follow pointers kept in
+// maps, so the result clause is assumed for the callers, the index invariant is proved, and the function as a whole is
+// checked on all lists of three credentials over four methods as a bounded stand-in)
+//@   ensures [C13,assumed] known_methods_only: forall k int :: 0 <= k && k < len(res) ==> (res[k].Method in globals.validators)
+//@   loop 1
+//@     invariant [C13] indexed_known: forall m string :: (m in index) ==> (m in globals.validators)
+//@ bounded [C13] credentials_normalised: i int in 0..7, j int in 0..7, k int in 0..7, v int in 0..1 :: verifCredsKnown(i, j, k, v)
+//@ func replyCreateUser(s *Session, msg *ClientComMessage, rec *auth.Rec)
+//@   requires [C13] s != nil && msg != nil && msg.Acc != nil
+//@   requires [C13,assumed] validators_registered: forall m string :: (m in globals.validators) ==> validatorConfigured(m)
+//@   modifies inferred
+//@   assert at call PreCheck [C13] validator_exists: $0 != nil
+//@   loop 1
+//@     invariant [C13] still_known: forall k int :: 0 <= k && k < len(creds) ==> (creds[k].Method in globals.validators)
+//@ func validatedCreds(uid types.Uid, authLvl auth.Level, creds []MsgCredClient, errorOnFail bool) (validated []string, tags []string, err error)
+//@   requires [C13,assumed] validators_registered: forall m string :: (m in globals.validators) ==> validatorConfigured(m)
+//@   modifies inferred
+//@   assert at call Check [C13] validator_exists: $0 != nil
+
+// C13/C14: the hub loop. Every request taken from the `meta` queue ({get}/{set} by a session that is not attached) is
+// handed to a reply goroutine (the reply functions answer every request: their own contracts), and every
+// subscription request taken from `join` is either given to a topic-initialisation goroutine, forwarded to the
+// topic's registration queue, or answered on the spot.
+//@ func (h *Hub) run()
+//@   requires h != nil
+//@   requires distinct_queues: h.join != h.meta && h.join != h.routeCli && h.meta != h.routeCli && h.join != nil && h.meta != nil
+//@   requires [C13] env: store.Topics != nil && store.Subs != nil
+//@   modifies *
+// (assumed of the senders: a deletion request carries a client message and its session together or neither - the two
+// kinds of sender are Session.del and a p2p topic that lost its last participant)
+//@   onrecv h.unreg as u: u != nil && ((u.pkt == nil) == (u.sess == nil)) && (u.pkt != nil ==> u.pkt.Del != nil)
+//@   loop 1
+//@     iterates [C13] meta_request_dispatched: taken(h.meta) > prev(taken(h.meta)) && lastTaken(h.meta) != nil && (lastTaken(h.meta).Get != nil || lastTaken(h.meta).Set != nil) ==> spawnedTotal() == prev(spawnedTotal()) + 1
+//@     iterates [C13,C14] join_request_handled: taken(h.join) > prev(taken(h.join)) ==> spawned("topicInit") == prev(spawned("topicInit")) + 1 || sentTotal() > prev(sentTotal()) || outTotal > prev(outTotal)
